@@ -18,6 +18,7 @@ import (
 	"sort"
 	"strconv"
 	"strings"
+	"time"
 
 	"github.com/tidwall/tile38/verifapi"
 	"verifharness/internal/hx"
@@ -591,6 +592,387 @@ func runC02(r *hx.Result, cfg hx.Config) {
 	}
 	rng := rand.New(rand.NewSource(cfg.Seed))
 	rounding(r, cfg, rng)
+	extremeClusters(r, cfg, rng)
 	inPackage(r, cfg, rng)
 	blackBox(r, cfg, rng)
+	extremeClustersBB(r, cfg, rng)
+	overlappedSearch(r, cfg, rng)
+}
+
+// ---------------------------------------------------------------- clusters inside one float32 cell at the extreme
+
+// A cluster of distinct float64 coordinates that fall into one (or adjacent) float32 cells, placed so
+// that it is the outermost thing of the collection on one side, inserted in a random order; then
+// windows whose edge falls strictly between two members and extend outwards. The index keys of the
+// members tie, so anything in the search path that trusts a float32-derived extent (e.g. Bounds(),
+// see C19-bounds-f32-key) instead of the outward-rounded index walk loses the outermost members.
+
+type cluster struct {
+	side   int       // 0 west (min x), 1 east (max x), 2 south (min y), 3 north (max y)
+	values []float64 // the clustered coordinate, ascending
+	other  float64   // the other coordinate of the members
+}
+
+func makeCluster(rng *rand.Rand) cluster {
+	c := cluster{side: rng.Intn(4), other: float64(rng.Intn(21) - 10)}
+	base := []float64{100, 64.5, 120.25, 75}[rng.Intn(4)]
+	if c.side >= 2 {
+		base = []float64{80, 64.5, 75, 85.125}[rng.Intn(4)]
+	}
+	step := []float64{1e-7, 1e-6, 2e-6}[rng.Intn(3)] // float32 ulp in [64,128) is 7.6e-6
+	n := 2 + rng.Intn(3)
+	for i := 1; i <= n; i++ {
+		c.values = append(c.values, base+float64(i)*step)
+	}
+	if c.side == 0 || c.side == 2 { // west / south clusters sit at negative coordinates as well as positive ones
+		if c.side == 2 || rng.Intn(2) == 0 { // (a positive southern cluster would push the rest beyond lat 90)
+			for i := range c.values {
+				c.values[i] = -c.values[i]
+			}
+			sort.Float64s(c.values)
+		} else {
+			// positive west cluster: everything else lies further east (handled by the caller)
+		}
+	}
+	return c
+}
+
+// xy of member i
+func (c cluster) xy(i int) (float64, float64) {
+	if c.side < 2 {
+		return c.values[i], c.other
+	}
+	return c.other, c.values[i]
+}
+
+// window whose edge is strictly between members i and i+1 and that extends outwards by 5 degrees
+// (so it contains exactly the members beyond the gap), as minx, miny, maxx, maxy
+func (c cluster) window(i int) [4]float64 {
+	mid := (c.values[i] + c.values[i+1]) / 2
+	switch c.side {
+	case 0:
+		return [4]float64{c.values[0] - 5, c.other - 1, mid, c.other + 1}
+	case 1:
+		return [4]float64{mid, c.other - 1, c.values[len(c.values)-1] + 5, c.other + 1}
+	case 2:
+		return [4]float64{c.other - 1, c.values[0] - 5, c.other + 1, mid}
+	default:
+		return [4]float64{c.other - 1, mid, c.other + 1, c.values[len(c.values)-1] + 5}
+	}
+}
+
+// a coordinate for the rest of the dataset, strictly inside the cluster on the cluster's axis
+func (c cluster) inner(rng *rand.Rand) (float64, float64) {
+	free := float64(rng.Intn(41) - 20)
+	var in float64
+	lo, hi := c.values[0], c.values[len(c.values)-1]
+	switch c.side {
+	case 0, 2: // cluster is the minimum: others above it
+		in = hi + 1 + float64(rng.Intn(20))
+	default:
+		in = lo - 1 - float64(rng.Intn(20))
+	}
+	if c.side < 2 {
+		return in, free / 4
+	}
+	return free, in
+}
+
+func rectJSON(w [4]float64) string {
+	return fmt.Sprintf(`{"type":"Polygon","coordinates":[[[%v,%v],[%v,%v],[%v,%v],[%v,%v],[%v,%v]]]}`,
+		w[0], w[1], w[2], w[1], w[2], w[3], w[0], w[3], w[0], w[1])
+}
+
+func extremeClusters(r *hx.Result, cfg hx.Config, rng *rand.Rand) {
+	drv, err := model.Start("coll")
+	if err != nil {
+		panic(err)
+	}
+	defer drv.Close()
+	rounds := 60
+	if cfg.Tier == "thorough" || cfg.Search {
+		rounds = 3000
+	}
+	// directed corpus first: two points 1e-7 apart as the westernmost / easternmost objects, both orders
+	type fixed struct {
+		cl    cluster
+		order []int
+	}
+	var corpus []fixed
+	for _, side := range []int{0, 1, 2, 3} {
+		vals := []float64{100.0000001, 100.0000002}
+		if side >= 2 {
+			vals = []float64{80.0000001, 80.0000002}
+		}
+		corpus = append(corpus, fixed{cluster{side, vals, 10}, []int{0, 1}}, fixed{cluster{side, vals, 10}, []int{1, 0}})
+	}
+	for round := 0; round < rounds+len(corpus); round++ {
+		var cl cluster
+		var order []int
+		if round < len(corpus) {
+			cl, order = corpus[round].cl, corpus[round].order
+		} else {
+			cl = makeCluster(rng)
+			order = rng.Perm(len(cl.values))
+		}
+		c := verifapi.NewColl()
+		drv.Ask("new")
+		var hist []string
+		put := func(o *verifapi.Obj, what string) {
+			c.Set(o)
+			drv.Ask(setReq(o)...)
+			hist = append(hist, what)
+		}
+		// the rest of the dataset, strictly inside
+		nIn := 1 + rng.Intn(6)
+		for i := 0; i < nIn; i++ {
+			x, y := cl.inner(rng)
+			put(verifapi.NewPointObj(fmt.Sprintf("in%d", i), x, y, 0), fmt.Sprintf("SET in%d POINT x=%v y=%v", i, x, y))
+		}
+		for _, i := range order {
+			x, y := cl.xy(i)
+			id := fmt.Sprintf("t%d", i)
+			if rng.Intn(4) == 0 { // a segment ending in the cluster instead of a point
+				x0, y0 := cl.inner(rng)
+				js := fmt.Sprintf(`{"type":"LineString","coordinates":[[%v,%v],[%v,%v]]}`, x0, y0, x, y)
+				o, _ := verifapi.NewGeoObj(id, js, 0)
+				put(o, "SET "+id+" OBJECT "+js)
+			} else {
+				put(verifapi.NewPointObj(id, x, y, 0), fmt.Sprintf("SET %s POINT x=%v y=%v", id, x, y))
+			}
+			if rng.Intn(5) == 0 { // overwrite in place / delete and re-insert: another history, same data
+				o := c.Get(id)
+				c.Delete(id)
+				drv.Ask("del", model.H(id))
+				put(o, "DEL+SET "+id)
+			}
+		}
+		all := c.Scan(false)
+		for gi := 0; gi+1 < len(cl.values); gi++ {
+			w := cl.window(gi)
+			qjs := rectJSON(w)
+			q, err := verifapi.ParseGeo(qjs)
+			if err != nil {
+				panic(qjs)
+			}
+			cs := map[string]interface{}{"history": hist, "query": qjs, "cluster_side": cl.side}
+			for _, op := range []string{"within", "intersects"} {
+				pred, run := verifapi.GeoWithin, c.Within
+				if op == "intersects" {
+					pred, run = verifapi.GeoIntersects, c.Intersects
+				}
+				var want []*verifapi.Obj
+				for _, o := range all {
+					if pred(o, q) {
+						want = append(want, o)
+					}
+				}
+				gs, ws := idSet(run(q, 0)), idSet(want)
+				r.Count(fmt.Sprintf("cluster/%x/%d/%s", hashStr(hist), gi, op), len(ws) > 0 && len(ws) < len(all))
+				r.Dist("cluster:" + op)
+				if strings.Join(gs, ",") != strings.Join(ws, ",") {
+					r.Fail(hx.Failure{Kind: "oracle", Signature: "index-" + op,
+						What: fmt.Sprintf("Collection.%s returned ids %q, a scan applying the same predicate to every object gives %q (window edge between two objects of one float32 cell at the collection's extreme)", op, gs, ws), Case: cs})
+				}
+			}
+			impl := strings.Join(hexIDs(c.GeoSearch(w)), ",")
+			if impl == "" {
+				impl = "-"
+			}
+			mod := drv.Ask("geo_search", bits(w[0]), bits(w[1]), bits(w[2]), bits(w[3]))
+			if impl != mod {
+				r.Fail(hx.Failure{Kind: "correspondence", Signature: "geo-search-model", What: "geoSearch candidates differ from Model.Search.geo_search", Case: cs, Impl: impl, Model: mod})
+			}
+		}
+		r.TracesImpl++
+	}
+}
+
+func hashStr(l []string) uint64 {
+	var h uint64 = 1469598103934665603
+	for _, s := range l {
+		for i := 0; i < len(s); i++ {
+			h = (h ^ uint64(s[i])) * 1099511628211
+		}
+		h = (h ^ 0xff) * 1099511628211
+	}
+	return h
+}
+
+// the same through the server: WITHIN|INTERSECTS key IDS BOUNDS / OBJECT vs TEST GET key id per object
+func extremeClustersBB(r *hx.Result, cfg hx.Config, rng *rand.Rand) {
+	rounds := 24
+	if cfg.Tier == "thorough" || cfg.Search {
+		rounds = 400
+	}
+	s, err := srv.Start(filepath.Join(cfg.Work, "c02-clusters"), "--appendonly", "no")
+	if err != nil {
+		panic(err)
+	}
+	defer s.Kill()
+	c := s.MustDial()
+	defer c.Close()
+	f := func(x float64) string { return strconv.FormatFloat(x, 'f', -1, 64) }
+	for round := 0; round < rounds; round++ {
+		key := fmt.Sprintf("tie%d", round)
+		cl := makeCluster(rng)
+		if round < 8 { // directed: the four sides, both insertion orders
+			vals := []float64{100.0000001, 100.0000002}
+			if round/2 >= 2 {
+				vals = []float64{80.0000001, 80.0000002}
+			}
+			cl = cluster{round / 2, vals, 10}
+		}
+		order := rng.Perm(len(cl.values))
+		if round < 8 {
+			order = []int{round % 2, 1 - round%2}
+		}
+		var hist []string
+		do := func(args ...string) srv.Value {
+			hist = append(hist, strings.Join(args, " "))
+			return c.MustDo(args...)
+		}
+		for i, n := 0, 1+rng.Intn(4); i < n; i++ {
+			x, y := cl.inner(rng)
+			do("SET", key, fmt.Sprintf("in%d", i), "POINT", f(y), f(x))
+		}
+		for _, i := range order {
+			x, y := cl.xy(i)
+			do("SET", key, fmt.Sprintf("t%d", i), "POINT", f(y), f(x))
+		}
+		all, _ := idsArr(c.MustDo("SCAN", key, "LIMIT", "100000", "IDS"))
+		for gi := 0; gi+1 < len(cl.values); gi++ {
+			w := cl.window(gi)
+			areas := [][]string{{"BOUNDS", f(w[1]), f(w[0]), f(w[3]), f(w[2])}, {"OBJECT", rectJSON(w)}}
+			for _, area := range areas {
+				for _, op := range []string{"WITHIN", "INTERSECTS"} {
+					got, ok := idsArr(c.MustDo(append([]string{op, key, "LIMIT", "100000", "IDS"}, area...)...))
+					if !ok {
+						r.Dist("bb:area-rejected:" + area[0])
+						continue
+					}
+					sort.Strings(got)
+					want := []string{}
+					for _, id := range all {
+						if t := c.MustDo(append([]string{"TEST", "GET", key, id, op}, area...)...); t.Kind == ':' && t.Int == 1 {
+							want = append(want, id)
+						}
+					}
+					sort.Strings(want)
+					r.Count(fmt.Sprintf("bbcluster/%d/%d/%s/%s", round, gi, op, area[0]), len(want) > 0 && len(want) < len(all))
+					r.Dist("bb:cluster:" + op)
+					if strings.Join(got, ",") != strings.Join(want, ",") {
+						lost := diff(want, got)
+						sig := "search-loses"
+						if len(lost) == 0 {
+							sig = "search-invents"
+						}
+						r.Fail(hx.Failure{Kind: "oracle", Signature: sig + "-" + area[0],
+							What: fmt.Sprintf("%s %s IDS %s returned %q; TEST GET %s <id> %s ... holds exactly for %q (window edge between two objects of one float32 cell at the collection's extreme)",
+								op, key, strings.Join(area, " "), got, key, op, want),
+							Case: map[string]interface{}{"history": hist, "query": op + " " + key + " IDS " + strings.Join(area, " ")}})
+					}
+				}
+			}
+		}
+	}
+}
+
+// ---------------------------------------------------------------- a search overlapped by a write
+
+// A WITHIN is parked in the middle of its index walk (its WHEREEVAL script spins on one id), and while
+// it is parked a second connection replaces / deletes an object that lies *before* that position in the
+// index, through every route a write can take: the plain command, EVAL, EVALRO, EVALNA. Whatever order
+// the two commands serialise in, every object that is not written to satisfies the predicate before and
+// after, so the search must return each of them exactly once (the index neither loses nor invents
+// results); the written object at most once. A write that is let in under the shared lock (the lock
+// table of C07 / the script tables of C18) shifts the leaf under the reader.
+func overlappedSearch(r *hx.Result, cfg hx.Config, rng *rand.Rand) {
+	s, err := srv.Start(filepath.Join(cfg.Work, "c02-overlap"), "--appendonly", "no")
+	if err != nil {
+		panic(err)
+	}
+	defer s.Kill()
+	w := s.MustDial()
+	defer w.Close()
+	type route struct {
+		name string
+		cmd  func(key string) []string
+	}
+	lua := func(kind, call string) func(string) []string {
+		return func(key string) []string {
+			return []string{kind, "return tile38.call(" + fmt.Sprintf(call, key) + ")", "0"}
+		}
+	}
+	routes := []route{
+		{"JDEL", func(k string) []string { return []string{"JDEL", k, "route", "coordinates.0"} }},
+		{"EVAL-jdel", lua("EVAL", "'jdel','%s','route','coordinates.0'")},
+		{"EVALRO-jdel", lua("EVALRO", "'jdel','%s','route','coordinates.0'")},
+		{"EVALNA-jdel", lua("EVALNA", "'jdel','%s','route','coordinates.0'")},
+		{"EVALNA-jset", lua("EVALNA", "'jset','%s','route','coordinates.0','[25,0.25]','RAW'")},
+		{"SET", func(k string) []string { return []string{"SET", k, "route", "POINT", "0.5", "25"} }},
+		{"EVALNA-set", lua("EVALNA", "'set','%s','route','point',0.5,25")},
+		{"EVALNA-fset", lua("EVALNA", "'fset','%s','route','speed',7")},
+		{"EVALNA-del", lua("EVALNA", "'del','%s','route'")},
+		{"EVALNA-expire", lua("EVALNA", "'expire','%s','route',100000")},
+	}
+	spinMs := 500
+	for ri, rt := range routes {
+		key := fmt.Sprintf("ov%d", ri)
+		w.MustDo("SET", key, "route", "OBJECT", `{"type":"LineString","coordinates":[[0,0],[25,0.5],[26,1]]}`)
+		var untouched []string
+		for i := 1; i <= 20; i++ {
+			id := fmt.Sprintf("truck%02d", i)
+			untouched = append(untouched, id)
+			w.MustDo("SET", key, id, "POINT", "1", strconv.Itoa(i))
+		}
+		area := []string{"BOUNDS", "-1", "-1", "10", "40"}
+		rd := s.MustDial()
+		spin := fmt.Sprintf(`if ID == 'truck03' then local t = os.clock() while os.clock() - t < %f do end end return true`, float64(spinMs)/1000)
+		if err := rd.Send(append([]string{"WITHIN", key, "WHEREEVAL", spin, "0", "LIMIT", "1000", "IDS"}, area...)...); err != nil {
+			panic(err)
+		}
+		time.Sleep(time.Duration(spinMs/3) * time.Millisecond)
+		wrep := w.MustDo(rt.cmd(key)...)
+		v, err := rd.Read()
+		rd.Close()
+		if err != nil {
+			panic(fmt.Sprintf("overlapped search: %v", err))
+		}
+		got, ok := idsArr(v)
+		if !ok {
+			r.Dist("overlap:search-rejected")
+			continue
+		}
+		count := map[string]int{}
+		for _, id := range got {
+			count[id]++
+		}
+		// the untouched objects still satisfy the predicate (index-free check)
+		stillAll := true
+		for _, id := range untouched {
+			t := w.MustDo(append([]string{"TEST", "GET", key, id, "WITHIN"}, area...)...)
+			stillAll = stillAll && t.Kind == ':' && t.Int == 1
+		}
+		r.Count("overlap/"+rt.name, !wrep.IsErr())
+		r.Dist("overlap:" + rt.name + ":" + map[bool]string{true: "refused", false: "done"}[wrep.IsErr()])
+		cs := map[string]interface{}{"dataset": "SET " + key + " route OBJECT LineString [[0,0],[25,0.5],[26,1]]; SET " + key + " truck01..truck20 POINT 1 <1..20>",
+			"parked":            "WITHIN " + key + " WHEREEVAL \"" + spin + "\" 0 LIMIT 1000 IDS " + strings.Join(area, " "),
+			"overlapping_write": strings.Join(rt.cmd(key), " "), "write_reply": wrep.String(), "search_reply": got}
+		if !stillAll {
+			continue
+		}
+		for _, id := range untouched {
+			if count[id] == 0 {
+				r.Fail(hx.Failure{Kind: "oracle", Signature: "overlapped-search-loses",
+					What: fmt.Sprintf("a WITHIN overlapped by %q lost %s, an object that was not written to and satisfies the predicate before and after", strings.Join(rt.cmd(key), " "), id), Case: cs})
+			}
+		}
+		for id, n := range count {
+			if n > 1 {
+				r.Fail(hx.Failure{Kind: "oracle", Signature: "overlapped-search-duplicates",
+					What: fmt.Sprintf("a WITHIN overlapped by %q returned %s %d times", strings.Join(rt.cmd(key), " "), id, n), Case: cs})
+			}
+		}
+	}
 }
